@@ -1222,7 +1222,7 @@ func extractAllHeaders(rawMessage string) []MessageHeader {
 			if currentHeaderName != "" {
 				headers = append(headers, MessageHeader{
 					Name:     currentHeaderName,
-					Value:    currentHeaderValue.String(),
+					Value:    strings.TrimRight(currentHeaderValue.String(), " \t\r\n"),
 					Sequence: sequence,
 				})
 			}
@@ -1243,7 +1243,7 @@ func extractAllHeaders(rawMessage string) []MessageHeader {
 		if currentHeaderName != "" {
 			headers = append(headers, MessageHeader{
 				Name:     currentHeaderName,
-				Value:    currentHeaderValue.String(),
+				Value:    strings.TrimRight(currentHeaderValue.String(), " \t\r\n"),
 				Sequence: sequence,
 			})
 			sequence++
@@ -1254,7 +1254,9 @@ func extractAllHeaders(rawMessage string) []MessageHeader {
 		colonIdx := strings.Index(line, ":")
 		if colonIdx != -1 {
 			currentHeaderName = strings.TrimSpace(line[:colonIdx])
-			currentHeaderValue.WriteString(strings.TrimSpace(line[colonIdx+1:]))
+			// Only white space around the whole value is dropped (the end is trimmed
+			// when the header is saved): white space before a fold belongs to the value
+			currentHeaderValue.WriteString(strings.TrimLeft(line[colonIdx+1:], " \t"))
 		} else {
 			// Malformed header, skip it
 			currentHeaderName = ""
